@@ -96,12 +96,23 @@ func (o *vectorOperator) initOutputs(ctx context.Context) error {
 	var highCardSide []labels.Labels
 	var errChan = make(chan error, 1)
 	go func() {
+		defer close(errChan)
+		// A panic while loading the series of the left-hand side is reported as
+		// the error of the query instead of taking down the process.
+		defer func() {
+			if e := recover(); e != nil {
+				if err, ok := e.(error); ok {
+					errChan <- errors.Wrap(err, "unexpected error")
+				} else {
+					errChan <- errors.Newf("unexpected error: %v", e)
+				}
+			}
+		}()
 		var err error
 		highCardSide, err = o.lhs.Series(ctx)
 		if err != nil {
 			errChan <- err
 		}
-		close(errChan)
 	}()
 
 	lowCardSide, err := o.rhs.Series(ctx)
